@@ -7,6 +7,7 @@ import (
 	"strings"
 
 	"github.com/emitter-io/emitter/verif/core"
+	"github.com/emitter-io/emitter/verif/drivers/authz"
 	vcrdt "github.com/emitter-io/emitter/verif/drivers/crdt"
 	"github.com/emitter-io/emitter/verif/drivers/mqttc"
 	"github.com/emitter-io/emitter/verif/drivers/session"
@@ -16,9 +17,12 @@ import (
 var checks = map[string]func(*core.Ctx){
 	"C01": trie.Run,
 	"C02": session.RunC02,
+	"C03": authz.RunC03,
 	"C04": vcrdt.Run,
 	"C07": session.RunC07,
 	"C08": session.RunC08,
+	"C11": authz.RunC11,
+	"C12": authz.RunC12,
 	"C16": mqttc.Run,
 	"C18": session.RunC18,
 }
